@@ -20,7 +20,7 @@ TIMEOUTS = [0.02, 0.05, 0.1, 0.5]
 BUFFERS = [16, 24, 32, 64, 100, 120, 128, 248, 255, 256, 512]
 
 RELIABLE_FAULTS = ["req_loss", "rep_loss", "rep_delay", "rep_dup",
-                   "retryable_rc", "slow_machine"]
+                   "retryable_rc", "slow_machine", "partition"]
 
 
 def rigcall(w, allowed, fn, *args, **kwargs):
@@ -91,7 +91,8 @@ class Ctl(object):
         self.w.sim.drain(0.05)
 
     def clean(self):
-        return not (self.policy.active and any(self.policy.rates.values()))
+        return not (self.policy.active and (
+            any(self.policy.rates.values()) or self.policy.partitions))
 
     def heal(self):
         self.net.heal()
